@@ -19,6 +19,7 @@ namespace Elk.Regex
 structure Tables where
   cat : Str → Rune → Bool        -- `\p{Name}` membership
   foldEq : Rune → Rune → Bool    -- same simple-case-folding orbit (`unicode.SimpleFold`)
+  posix : Str → Rune → Bool      -- `[:name:]` membership (ASCII classes)
 
 /-- reflexive–transitive iteration of a match relation (Kleene star on position pairs) -/
 inductive Star (R : Nat → Nat → Prop) : Nat → Nat → Prop
@@ -61,13 +62,31 @@ end
 
 /-! ### the target: RE2 syntax trees -/
 
+/-- value of a string of hex digits (`strconv.ParseUint(s, 16, …)`; non-digits count as 0) -/
+def hexDigitVal (c : Rune) : Nat :=
+  if 48 ≤ c ∧ c ≤ 57 then c - 48 else if 97 ≤ c ∧ c ≤ 102 then c - 87 else if 65 ≤ c ∧ c ≤ 70 then c - 55 else 0
+def hexVal (d : Str) : Nat := d.foldl (fun acc c => acc * 16 + hexDigitVal c) 0
+
+/-- rune denoted by `\a \f \t \n \r \v` -/
+def namedRune (c : Rune) : Rune :=
+  if c = 97 then 7 else if c = 102 then 12 else if c = 116 then 9 else if c = 110 then 10
+  else if c = 114 then 13 else if c = 118 then 11 else c
+
+/-- an end of a range inside a bracket expression -/
+inductive REnd where
+  | rune (c : Rune)     -- printed raw
+  | esc (c : Rune)      -- `\c`
+  | named (c : Rune)    -- `\a \f \t \n \r`
+deriving Repr, DecidableEq
+
 /-- an element of a bracket expression -/
 inductive Item where
   | rune (c : Rune)                 -- a literal rune, printed raw
   | esc (c : Rune)                  -- `\c`
   | named (c : Rune)                -- `\a \f \t \n \r \v` by letter `c`
   | hex (braced : Bool) (digits : Str)  -- `\x{…}` (braced) or `\xHH`
-  | range (lo hi : Rune)            -- `lo-hi`
+  | range (lo hi : REnd)            -- `lo-hi`
+  | posix (neg : Bool) (name : Str) -- `[:name:]` / `[:^name:]`
   | perl (k : Rune)                 -- `\w \d \s \W \D \S`
   | uni (neg : Bool) (name : Str)   -- `\p{name}` / `\P{name}`
 deriving Repr, DecidableEq
@@ -93,22 +112,23 @@ inductive GoRe where
   | fgrp (set unset : Flags) (r : GoRe)  -- `(?set-unset:r)` (only i m s U are ever set here)
 deriving Repr
 
-/-- value of a string of hex digits (`strconv.ParseUint(s, 16, …)`; non-digits count as 0) -/
-def hexDigitVal (c : Rune) : Nat :=
-  if 48 ≤ c ∧ c ≤ 57 then c - 48 else if 97 ≤ c ∧ c ≤ 102 then c - 87 else if 65 ≤ c ∧ c ≤ 70 then c - 55 else 0
-def hexVal (d : Str) : Nat := d.foldl (fun acc c => acc * 16 + hexDigitVal c) 0
+def REnd.print : REnd → Str
+  | .rune c => [c]
+  | .esc c => [92, c]
+  | .named c => [92, c]
 
-/-- rune denoted by `\a \f \t \n \r \v` -/
-def namedRune (c : Rune) : Rune :=
-  if c = 97 then 7 else if c = 102 then 12 else if c = 116 then 9 else if c = 110 then 10
-  else if c = 114 then 13 else if c = 118 then 11 else c
+def REnd.val : REnd → Rune
+  | .rune c => c
+  | .esc c => c
+  | .named c => namedRune c
 
 def Item.print : Item → Str
   | .rune c => [c]
   | .esc c => [92, c]
   | .named c => [92, c]
   | .hex braced d => if braced then lit "\\x{" ++ d ++ [125] else [92, 120] ++ d
-  | .range lo hi => [lo, 45, hi]
+  | .range lo hi => lo.print ++ [45] ++ hi.print
+  | .posix neg name => [91, 58] ++ (if neg then [94] else []) ++ name ++ [58, 93]
   | .perl k => [92, k]
   | .uni neg name => [92, if neg then 80 else 112, 123] ++ name ++ [125]
 
@@ -150,7 +170,9 @@ def Item.has (ci : Bool) : Item → Rune → Prop
   | .esc c, r => foldSet T ci (· = c) r
   | .named c, r => foldSet T ci (· = namedRune c) r
   | .hex _ d, r => foldSet T ci (· = hexVal d) r
-  | .range lo hi, r => foldSet T ci (fun x => lo ≤ x ∧ x ≤ hi) r
+  | .range lo hi, r => foldSet T ci (fun x => lo.val ≤ x ∧ x ≤ hi.val) r
+  | .posix neg name, r => if neg then ¬ foldSet T ci (fun x => T.posix name x = true) r
+                          else foldSet T ci (fun x => T.posix name x = true) r
   | .perl k, r => if perlNeg k then ¬ foldSet T ci (perlSet k) r else foldSet T ci (perlSet k) r
   | .uni neg name, r => if neg then ¬ foldSet T ci (fun x => T.cat name x = true) r
                         else foldSet T ci (fun x => T.cat name x = true) r
@@ -210,6 +232,33 @@ def elkSet (f : Flags) : Node → Option ((Rune → Prop) × Bool)
 def setHas (ci : Bool) (P : (Rune → Prop) × Bool) (r : Rune) : Prop :=
   if P.2 then ¬ foldSet T ci P.1 r else foldSet T ci P.1 r
 
+/-- the rune a node stands for when it is an end of a range -/
+def runeOf : Node → Option Rune
+  | .char c => some c
+  | .metaCharEscape c => some c
+  | .bell => some 7
+  | .formFeed => some 12
+  | .tab => some 9
+  | .newline => some 10
+  | .carriageReturn => some 13
+  | _ => none
+
+/-- the (possibly complemented) set a bracket-expression element denotes; whitespace is literal here even under `x` -/
+def elemSet (f : Flags) : Node → Option ((Rune → Prop) × Bool)
+  | .char c => some ((· = c), false)
+  | .charRange l r =>
+    match runeOf l, runeOf r with
+    | some lo, some hi => some ((fun x => lo ≤ x ∧ x ≤ hi), false)
+    | _, _ => none
+  | .namedCharClass name neg => some ((fun x => T.posix name x = true), neg)
+  | .unicodeCharClass name neg => some ((fun x => T.cat name x = true), neg)
+  | n => elkSet T f n
+
+def elemHas (f : Flags) (e : Node) (r : Rune) : Prop :=
+  match elemSet T f e with
+  | some P => setHas T f.i P r
+  | none => False
+
 mutual
 /-- `EM r f i j`: the Elk regex `r`, read under flags `f`, matches `s[i..j)` -/
 def EM : Node → Flags → Nat → Nat → Prop
@@ -229,6 +278,8 @@ def EM : Node → Flags → Nat → Nat → Prop
   | .zeroOrMore r _, f, i, j => Star (EM r f) i j
   | .oneOrMore r _, f, i, j => ∃ k, EM r f i k ∧ Star (EM r f) k j
   | .group r _ set unset _, f, i, j => EM r (applyFlags f set unset) i j   -- flags are scoped by the group
+  | .charClass els neg, f, i, j =>                           -- one rune in (or, negated, outside) the union of the elements
+    one s (fun r => if neg then ¬ (∃ e ∈ els.toList, elemHas T f e r) else (∃ e ∈ els.toList, elemHas T f e r)) i j
   | n, f, i, j =>
     match elkSet T f n with
     | some P => one s (setHas T f.i P) i j
@@ -269,6 +320,75 @@ def tgLeaf (f : Flags) : Node → Option GoRe
   | .notVWhitespace => some (.cls true (vItems f.a))
   | _ => none
 
+/-- `nodeHasToBeSplitInCharacterClasses` as a function of the class's polarity and the flags -/
+def splitP (neg : Bool) (f : Flags) : Node → Bool
+  | .notHWhitespace | .notVWhitespace => !neg
+  | .notWhitespace | .notWord => !f.a && !neg
+  | _ => false
+
+def rend : Node → Option REnd
+  | .char c => some (.rune c)
+  | .metaCharEscape c => some (.esc c)
+  | .bell => some (.named 97)
+  | .formFeed => some (.named 102)
+  | .tab => some (.named 116)
+  | .newline => some (.named 110)
+  | .carriageReturn => some (.named 114)
+  | _ => none
+
+/-- what `charClassElement` writes for an element that stays inside the brackets -/
+def tgItems (f : Flags) : Node → Option (List Item)
+  | .char c => some [.rune c]
+  | .metaCharEscape c => some [.esc c]
+  | .bell => some [.named 97]
+  | .formFeed => some [.named 102]
+  | .tab => some [.named 116]
+  | .newline => some [.named 110]
+  | .carriageReturn => some [.named 114]
+  | .word => some (if f.a then [.perl 119] else wordItems)
+  | .notWord => if f.a then some [.perl 87] else none
+  | .digit => some [if f.a then .perl 100 else .uni false (lit "Nd")]
+  | .notDigit => some [if f.a then .perl 68 else .uni true (lit "Nd")]
+  | .whitespace => some (if f.a then [.perl 115] else spaceItems)
+  | .notWhitespace => if f.a then some [.perl 83] else none
+  | .hWhitespace => some (hItems f.a)
+  | .vWhitespace => some (vItems f.a)
+  | .charRange l r =>
+    match rend l, rend r with
+    | some a, some b => some [.range a b]
+    | _, _ => none
+  | .namedCharClass name neg => some [.posix neg name]
+  | .unicodeCharClass name neg => some [.uni neg name]
+  | _ => none
+
+def mapItems (f : Flags) : List Node → Option (List Item)
+  | [] => some []
+  | e :: es => do
+    let a ← tgItems f e
+    let b ← mapItems f es
+    pure (a ++ b)
+
+def mapLeaf (f : Flags) : List Node → Option (List GoRe)
+  | [] => some []
+  | e :: es => do
+    let a ← tgLeaf f e
+    let b ← mapLeaf f es
+    pure (a :: b)
+
+def altList : GoRe → List GoRe → GoRe
+  | g, [] => g
+  | g, x :: xs => .alt g (altList x xs)
+
+/-- `charClass`: the bracket expression, with the split-out negated shorthands as further alternatives -/
+def tgClass (els : List Node) (neg : Bool) (f : Flags) : Option GoRe := do
+  let items ← mapItems f (els.filter (fun n => !splitP neg f n))
+  let leaves ← mapLeaf f (els.filter (splitP neg f))
+  match (els.filter (fun n => !splitP neg f n)).isEmpty, leaves with
+  | false, [] => pure (.cls neg items)
+  | false, x :: xs => pure (.ncg (altList (.cls neg items) (x :: xs)))
+  | true, [] => none            -- `[]` / `[^]`: written as full-range classes; not in the fragment
+  | true, x :: xs => pure (.ncg (altList x xs))
+
 mutual
 def tg : Node → Flags → Option GoRe
   | .char c, f => some (if f.x && isSpace c then .eps else .lit c)
@@ -296,6 +416,7 @@ def tg : Node → Flags → Option GoRe
     else if name.length > 0 then pure (.ngrp name inner)
     else if nc then pure (.ncg inner)
     else pure (.grp inner)
+  | .charClass els neg, f => tgClass els.toList neg f
   | n, f => tgLeaf f n
 /-- a concatenation without `#` (no extended-mode comment can start) -/
 def tgs : Nodes → Flags → Option GoRe
